@@ -82,7 +82,8 @@ Conv(ev) ==
           /\ rows' = all
 
 Ord(ev) ==
-  Judge(/\ Len(ev.cmp) = Len(ev.pairs) /\ Len(ev.eq) = Len(ev.pairs)
+  Judge(/\ ~ev.err                      \* a panic of Row / OwnedRow comparison is an outcome, and a wrong one
+        /\ Len(ev.cmp) = Len(ev.pairs) /\ Len(ev.eq) = Len(ev.pairs)
         /\ \A k \in 1..Len(ev.pairs) :
              LET a == rows[ev.pairs[k][1] + 1].b  b == rows[ev.pairs[k][2] + 1].b IN
              /\ ev.cmp[k] = ByteCmp(a, b)
